@@ -267,6 +267,9 @@ func corpus(thorough bool) []caseT {
 			add(fmt.Sprintf("hand%d/%s", i, o), h, o)
 		}
 	}
+	for i, src := range containerPrograms(thorough) {
+		add(fmt.Sprintf("container%d", i), src, "default")
+	}
 	n := 0
 	progen.F5(func(p progen.Program) {
 		n++
@@ -314,6 +317,17 @@ func Check(r *ev.Run, replay string) {
 	cases := corpus(r.Thorough())
 	staticSites := map[string]bool{}
 	r.Sharded(16, func(shard, n int) {
+		// the map ranges every evaluation executes while the default configuration is built:
+		// they are deviated under every other corpus program, not again under the container family
+		setup := map[string]bool{}
+		{
+			rn := &runner{}
+			vseam.Choose = rn.choose
+			outcome(caseT{"setup", "1", "default"})
+			for _, s := range rn.sites {
+				setup[s.Site] = true
+			}
+		}
 		for ci, c := range cases {
 			if ci%n != shard {
 				continue
@@ -334,6 +348,9 @@ func Check(r *ev.Run, replay string) {
 			unranked := 0
 			for si, s := range sites {
 				staticSites[s.Site] = true
+				if strings.HasPrefix(c.Name, "container") && setup[s.Site] {
+					continue
+				}
 				if !s.Ranked {
 					unranked++
 				}
@@ -359,6 +376,6 @@ func Check(r *ev.Run, replay string) {
 		r.Add("static_sites_reached_by_this_shard", len(staticSites))
 	})
 	r.Set("programs", len(cases))
-	r.Set("rule", "every corpus program (map/set/default-parameter/import programs, all map-literal and iteration programs of the C01 generators, constant kinds; four configurations: default, extra globals, denied names, overrides) x every dynamic Go-map range site it executes (59 static sites rewritten by tools/mapseam in ., ast, compiler, vm, object, builtins, importer, parser, lexer, os, modules/fmt, modules/os) x every alternative order of that one site (all permutations for <= 3 keys; reverse, rotations and boundary swaps above); oracle: value, error text, output, MarshalCode bytes and re-marshalled bytes identical to the base order")
+	r.Set("rule", "every corpus program (map/set/default-parameter/import programs, every deterministic default builtin and every map/set method applied to a 4-key map and set alone and with tie-making printing callbacks, all map-literal and iteration programs of the C01 generators, constant kinds; four configurations: default, extra globals, denied names, overrides) x every dynamic Go-map range site it executes (59 static sites rewritten by tools/mapseam in ., ast, compiler, vm, object, builtins, importer, parser, lexer, os, modules/fmt, modules/os) x every alternative order of that one site (all permutations for <= 3 keys; reverse, rotations and boundary swaps above); oracle: value, error text, output, MarshalCode bytes and re-marshalled bytes identical to the base order")
 	r.Assumptions = []string{"dependence on memory addresses is not covered by this seam", "rand, time and goroutine scheduling are exempt by the statement"}
 }
